@@ -31,6 +31,8 @@ def species_sets(tier):
     for k in range(1, kmax + 1):
         for c in itertools.combinations(POOL, k):
             yield ["H"] + list(c)
+            if k >= 2:
+                yield ["@linked", "H"] + list(c)
 
 
 def read_renorm(files, backend, macros):
@@ -70,7 +72,8 @@ def read_renorm(files, backend, macros):
                 raise HarnessError(f"RenormAbundance: target {k[1]!r}")
             s = macros.value(m.group(1))
             try:
-                factors[s] = P.to_poly(parse_expr(k[2]), md)
+                # statements are kept in order: a slot assigned twice is rescaled twice, a slot never assigned keeps its value
+                factors.setdefault("@order", []).append((s, P.to_poly(parse_expr(k[2]), md)))
             except CSyntaxError as e:
                 return None, None, ("factor", node[1], str(e))
             except ZeroDivisionError as e:
@@ -97,6 +100,38 @@ def solve(M, b):
     return [A[i][n] for i in range(n)]
 
 
+def apply_factors(factors, ab, r):
+    """RenormAbundance as a sequence of assignments ab[s] = <expr over ab[], rptr[]> in text order"""
+    new = dict(ab)
+    for sl, poly in factors.get("@order", []):
+        new[sl] = P.evaluate(poly, lambda sym: new[int(sym[3:])] if sym.startswith("ab:") else r[int(sym[5:])])
+    return new
+
+
+def build_net(species):
+    """-> (network, species names, linked).  '@linked' variant: same species, but all except the last-sorted one are
+    linked by one reaction: Network.species orders by connection count first, so the slot order changes (in
+    particular the electron is no longer the last slot)"""
+    from ..harness.render import quiet
+    from naunet.network import Network
+
+    linked = bool(species) and species[0] == "@linked"
+    if linked:
+        species = list(species[1:])
+    with quiet():
+        net = Network(required_species=list(species))
+        if linked:
+            from naunet.reactions.reaction import Reaction
+            from naunet.reactiontype import ReactionType
+
+            order = [x.name for x in net.species]
+            body = order[:-1]
+            net.add_reaction(Reaction(body[:1], body[1:] or body[:1], -1.0, -1.0, 1.0, 0.0, 0.0, ReactionType.GAS_TWOBODY))
+            if [x.name for x in net.species][0] != order[-1] and len(order) > 2:
+                raise HarnessError(f"linked variant did not move {order[-1]} to the front: {[x.name for x in net.species]}")
+    return net, list(species), linked
+
+
 def run_set(species):
     from ..harness.render import render, reset_globals, quiet
     from ..harness.cxx import confirm_not_c
@@ -104,12 +139,11 @@ def run_set(species):
     reset_globals()
     from naunet.network import Network
 
-    case = {"species": list(species)}
-    label = "+".join(species)
+    net, species, linked = build_net(species)
+    case = {"species": (["@linked"] if linked else []) + list(species)}
+    label = "+".join(species) + (" (linked)" if linked else "")
     viols = []
     nchk = 0
-    with quiet():
-        net = Network(required_species=list(species))
     for backend in ("dense", "rosenbrock4"):
         try:
             files = render(net, backend, ["include/naunet_macros.h.j2", "src/naunet_renorm.cpp.j2", "src/naunet_physics.cpp.j2"])
@@ -136,6 +170,29 @@ def run_set(species):
         ea = read_element_abund(files, macros)
         if ea is None:
             raise HarnessError("no GetElementAbund")
+        neq_, nel_ = macros.value("NEQUATIONS"), macros.value("NELEMENTS")
+        oob = [f"A({i},{j})" for (i, j) in matrix if not (0 <= i < nel_ and 0 <= j < nel_)]
+        for sl, poly in factors.get("@order", []):
+            if not 0 <= sl < neq_:
+                oob.append(f"ab[{sl}]")
+            for mono in poly:
+                for sym, _e in mono:
+                    if sym.startswith("ab:") and not 0 <= int(sym[3:]) < neq_:
+                        oob.append(f"ab[{sym[3:]}]")
+                    if sym.startswith("rptr:") and not 0 <= int(sym[5:]) < nel_:
+                        oob.append(f"rptr[{sym[5:]}]")
+        for (i, j), poly in matrix.items():
+            for mono in poly:
+                for sym, _e in mono:
+                    if sym.startswith("ab:") and not 0 <= int(sym[3:]) < neq_:
+                        oob.append(f"ab[{sym[3:]}]")
+        if oob:
+            viols.append((f"C16:subscript-out-of-range:{ftag}", f"{label} [{backend}]: renormalisation code addresses {sorted(set(oob))[:6]} with NEQUATIONS={neq_}, NELEMENTS={nel_}", case))
+            continue
+        assigned = [sl for sl, _ in factors.get("@order", [])]
+        if sorted(assigned) != sorted(set(assigned)):
+            viols.append((f"C16:slot-rescaled-twice:{ftag}", f"{label} [{backend}]: RenormAbundance assigns slots {sorted(x for x in set(assigned) if assigned.count(x) > 1)} more than once", case))
+            continue
         slots = {}
         for s in species:
             mac = "IDX_" + ALIASES[s]
@@ -163,7 +220,7 @@ def run_set(species):
                 for k, (e, sl) in enumerate(sorted(elem_slots.items())):
                     ref[sl] = totals[e] / hn * (PRIMES[k % len(PRIMES)] if (mode == "scaled" and e != "H") else 1)
                 try:
-                    M = [[P.evaluate(matrix[(i, j)], lambda s: val(s, {"Hnuclei": hn})) for j in range(nelem)] for i in range(nelem)]
+                    M = [[P.evaluate(matrix.get((i, j), {}), lambda s: val(s, {"Hnuclei": hn})) for j in range(nelem)] for i in range(nelem)]
                 except ZeroDivisionError:
                     viols.append((f"C16:division-by-zero:{ftag}", f"{label} [{backend}]: matrix entry divides by zero for ab={ {k: str(v) for k, v in ab.items()} }", case))
                     break
@@ -172,11 +229,10 @@ def run_set(species):
                 if r is None:
                     viols.append((f"C16:singular:{ftag}", f"{label} [{backend}]: coupling matrix singular for positive abundances", case))
                     break
-                new = {}
+                new = dict(ab)
                 try:
-                    for s, sl in slots.items():
-                        fac = P.evaluate(factors[sl], lambda sym: ab[int(sym[3:])] if sym.startswith("ab:") else r[int(sym[5:])] if sym.startswith("rptr:") else val(sym))
-                        new[sl] = fac
+                    for sl, poly in factors.get("@order", []):
+                        new[sl] = P.evaluate(poly, lambda sym: new[int(sym[3:])] if sym.startswith("ab:") else r[int(sym[5:])] if sym.startswith("rptr:") else val(sym))
                 except ZeroDivisionError:
                     viols.append((f"C16:division-by-zero:{ftag}", f"{label} [{backend}]: renormalisation factor divides by zero", case))
                     break
@@ -215,9 +271,9 @@ def conformance(arg):
     reset_globals()
     from naunet.network import Network
 
-    case = {"species": list(species), "backend": backend, "conformance": True}
+    net, species, linked = build_net(species)
+    case = {"species": (["@linked"] if linked else []) + list(species), "backend": backend, "conformance": True}
     with quiet():
-        net = Network(required_species=list(species))
         files = render(net, backend, None)
     macros = read_macros(files["include/naunet_macros.h"])
     matrix, factors, err = read_renorm(files, backend, macros)
@@ -231,13 +287,14 @@ def conformance(arg):
     totals = {e: P.evaluate(ea[sl], lambda sym: ab[int(sym.split(":")[1])]) for e, sl in elem_slots.items()}
     hn = totals["H"]
     ref = {sl: totals[e] / hn * (PRIMES[k % len(PRIMES)] if e != "H" else 1) for k, (e, sl) in enumerate(sorted(elem_slots.items()))}
-    M = [[P.evaluate(matrix[(i, j)], lambda s_: ab[int(s_[3:])] if s_.startswith("ab:") else hn) for j in range(nelem)] for i in range(nelem)]
+    M = [[P.evaluate(matrix.get((i, j), {}), lambda s_: ab[int(s_[3:])] if s_.startswith("ab:") else hn) for j in range(nelem)] for i in range(nelem)]
     r = solve(M, [ref[i] for i in range(nelem)])
     if r is None:
         return 0, []
-    exp = {}
-    for s_, sl in slots.items():
-        exp[sl] = float(P.evaluate(factors[sl], lambda sym: ab[int(sym[3:])] if sym.startswith("ab:") else r[int(sym[5:])]))
+    try:
+        exp = {sl: float(v) for sl, v in apply_factors(factors, ab, r).items()}
+    except (ZeroDivisionError, KeyError, IndexError):
+        return 0, []  # judged by the exact sub-check
     d = Path(tempfile.mkdtemp(dir=scratch()))
     try:
         for rel, text in files.items():
@@ -253,8 +310,7 @@ def conformance(arg):
         r2 = solve(M, [ref2[i] for i in range(nelem)])
         exp2 = {}
         if r2 is not None:
-            for s_, sl in slots.items():
-                exp2[sl] = float(P.evaluate(factors[sl], lambda sym: ab[int(sym[3:])] if sym.startswith("ab:") else r2[int(sym[5:])]))
+            exp2 = {sl: float(v) for sl, v in apply_factors(factors, ab, r2).items()}
         abarr = ", ".join(repr(float(ab.get(i, 0))) for i in range(neq))
         (d / "driver.cpp").write_text(f"""
 #include <stdio.h>
@@ -309,17 +365,18 @@ def run(ctx):
         n += k
         nchk += c
         ctx.absorb(viols)
-    clean = [sp for sp in sets if not any(x.startswith("GRAIN") for x in sp) and all(any(len(COMP[a]) == 1 and a in COMP and list(COMP[a]) == [e] and not a.endswith(("+", "-")) and not a.startswith("#") and sum(COMP[a].values()) == 1 for a in sp) for x in sp for e in COMP[x])]
+    clean = [sp for sp in sets if sp[0] != "@linked" and not any(x.startswith("GRAIN") for x in sp) and all(any(len(COMP[a]) == 1 and a in COMP and list(COMP[a]) == [e] and not a.endswith(("+", "-")) and not a.startswith("#") and sum(COMP[a].values()) == 1 for a in sp) for x in sp for e in COMP[x])]
     step = 12 if ctx.tier == "quick" else 3
     always = [["H", "O"], ["H", "C", "O", "CO"], ["H", "D", "HD", "O"], ["H", "H2", "e-", "O"]]  # H first / middle / with electrons
     chosen = [sp for sp in always if sp in clean] + [sp for i, sp in enumerate(clean) if i % step == ctx.seed % step and sp not in always]
+    chosen += [["@linked"] + sp for sp in chosen if len(sp) >= 3][:: 2 if ctx.tier == "quick" else 1]
     conf = [(sp, b) for sp in chosen for b in ("dense", "rosenbrock4")]
     nconf = 0
     for k, viols in ctx.pmap(conformance, conf):
         nconf += k
         ctx.absorb(viols)
     ctx.assumptions += [
-        "every set contains atomic H (Renorm only exists #ifdef IDX_ELEM_H); networks are built from required_species (renormalisation does not depend on reactions)",
+        "every set contains atomic H (Renorm only exists #ifdef IDX_ELEM_H); networks are built from required_species (renormalisation does not depend on reactions); each set of >= 3 species is also built with one reaction linking all but the last-sorted species, which changes the slot order (electron first instead of last)",
         "InitRenorm matrix entries, RenormAbundance factors and GetElementAbund sums are read from the rendered text as exact polynomials and evaluated over the rationals; the linear system is solved exactly (what SUNLinSolSolve / lu_substitute compute up to rounding)",
         "reference ratios: (a) the current ratios (identity expected), (b) every non-H element scaled by a distinct rational",
     ]
